@@ -10,7 +10,8 @@ a boolean, unit of another dimension, assignment to a `!constant` node, declarat
 an undefined node - alone, after and before a valid modification.
 Placements: root; inside a group (indented); group + dotted-path modifications; group re-opened; DIP(env) chain.
 
-Not demanded (left out): `none` written with a unit; a unit on a modification of a node defined without unit; integer
+Not demanded (left out): `none` written with a unit as the FINAL assignment (as an intermediate assignment, in the same
+or another unit of the dimension, it is enumerated: the later assignments fully determine the result); a unit on a modification of a node defined without unit; integer
 nodes whose converted value is not integral; typed modifications spelling another width of the same type or other
 dimensions ([2] vs [3]); scalar <-> array changes; numbers as boolean values; non-linear units (C05).
 """
@@ -128,6 +129,8 @@ def steps(fam, core=False):
                 out.append((False, v, u))
         out.append((False, "none", "omit"))
         out.append((True, tags[0], "omit"))
+        if unit:
+            out.append((False, "none", "o1"))        # only as an intermediate assignment, see final_ok
         return out
     uc = ["omit", "same", "o1", "o2"] if unit else ["omit"]
     for typed in (False, True):
@@ -135,7 +138,18 @@ def steps(fam, core=False):
             for u in uc:
                 out.append((typed, v, u))
         out.append((typed, "none", "omit"))
+    if unit:
+        # `none <unit>`: what it leaves behind as the FINAL assignment is not demanded, but as an INTERMEDIATE
+        # assignment the statement fully determines the result of the later assignments
+        for typed in (False, True):
+            for u in ("same", "o1", "o2"):
+                out.append((typed, "none", u))
     return out
+
+
+def final_ok(seq):
+    """a sequence is generated only if its last step is not `none` written with a unit"""
+    return not seq or not (seq[-1][1] == "none" and seq[-1][2] != "omit")
 
 
 def bad_steps(fam):
@@ -271,6 +285,8 @@ def case_tags(fam, seq, placement, bad=None, constant=False, undefined=False):
         last = i == len(seq) - 1
         if v in ("zero", "false", "empty", "none"):
             tags.add(("last:" if last else "earlier:") + v)
+        if v == "none" and uc != "omit":
+            tags.add("earlier:none-with-unit")
         if uc in ("o1", "o2"):
             tags.add("conversion")
             if last:
@@ -358,7 +374,8 @@ def run_case(desc, sh=None, seen=None):
         sh.count("outcome=" + ("ok" if rec is None else rec["behaviour"]))
         sh.count("len=%d" % len(desc["seq"]))
         sh.count("placement=" + desc.get("placement", "root"))
-        for t in ("last:zero", "last:none", "last:false", "last:empty", "conversion", "array", "typed-mod"):
+        for t in ("last:zero", "last:none", "last:false", "last:empty", "conversion", "array", "typed-mod",
+                  "earlier:none-with-unit"):
             if t in tags:
                 sh.count("feature=" + t)
         if len(sh.samples) < 3 and len(desc["seq"]) == 3:
@@ -405,21 +422,25 @@ def _cases(tier, seed, only=None):
         # ---- positive, root placement
         for n in (1, 2):
             for seq in itertools.product(full, repeat=n):
-                yield fi, dict(sub="sequence", fam=F, seq=[list(s) for s in seq])
+                if final_ok(seq):
+                    yield fi, dict(sub="sequence", fam=F, seq=[list(s) for s in seq])
         full3 = tier == "thorough" or (fi % NWIN == win)
         done = set()
         if full3:
             for seq in itertools.product(full, repeat=3):
-                yield fi, dict(sub="sequence", fam=F, seq=[list(s) for s in seq])
+                if final_ok(seq):
+                    yield fi, dict(sub="sequence", fam=F, seq=[list(s) for s in seq])
         else:
             for seq in itertools.product(core, repeat=3):
-                yield fi, dict(sub="sequence", fam=F, seq=[list(s) for s in seq])
+                if final_ok(seq):
+                    yield fi, dict(sub="sequence", fam=F, seq=[list(s) for s in seq])
         # ---- positive, other placements (core alphabet, length <= 2; thorough: + full alphabet length 1)
         for pl in PLACEMENTS[1:]:
             seqs = [(s,) for s in (full if tier == "thorough" else core)]
             seqs += list(itertools.product(core, repeat=2))
             for seq in seqs:
-                yield fi, dict(sub="placement", fam=F, seq=[list(s) for s in seq], placement=pl)
+                if final_ok(seq):
+                    yield fi, dict(sub="placement", fam=F, seq=[list(s) for s in seq], placement=pl)
         # ---- negative programs
         bads = bad_steps(fam)
         ctx = [((), 0), ((core[0],), 1), ((core[0],), 0), ((core[2 % len(core)],), 1)]
@@ -429,7 +450,9 @@ def _cases(tier, seed, only=None):
                 for pl in pls:
                     yield fi, dict(sub="negative", fam=F, seq=[list(s) for s in seq], placement=pl, bad=bi, bad_at=at)
         if fam[3] == "def":
-            for s in (full if tier == "thorough" else list(dict.fromkeys(core + [full[-2]]))):
+            for s in (full if tier == "thorough" else list(dict.fromkeys(core + [(True, "none", "omit")]))):
+                if not final_ok((s,)):
+                    continue
                 pls = ["root", PLACEMENTS[1 + fi % 4]] if tier == "quick" else list(PLACEMENTS)
                 for pl in pls:
                     yield fi, dict(sub="negative", fam=F, seq=[list(s)], placement=pl, constant=True)
@@ -495,6 +518,7 @@ def finish(total, tier, seed):
     h = total.hist
     need = ["expect=accept", "sub=sequence", "sub=placement", "sub=negative", "len=3", "feature=last:zero",
             "feature=last:none", "feature=last:false", "feature=last:empty", "feature=conversion", "feature=array",
+            "feature=earlier:none-with-unit",
             "feature=typed-mod"] + ["placement=" + p for p in PLACEMENTS]
     missing = [k for k in need if not h.get(k)]
     rejects = [k for k in h if k.startswith("expect=reject:")]
@@ -509,7 +533,7 @@ MANIFEST = dict(
          "a reference interpretation of the generating AST: 78 families (bool/int/float/str and sized variants x unit "
          "none/m/cm/J/custom x scalar/[2] array x definition with normal/falsy/none value or declaration), every "
          "sequence of 1-2 modifications (typed/untyped x 0/negative/positive/false/''/none x unit omitted/same/two "
-         "other units), length 3 over a core alphabet for all families and over the full alphabet for the seed's window "
+         "other units; `none <unit>` only as an intermediate step), length 3 over a core alphabet for all families and over the full alphabet for the seed's window "
          "(1 of 26 windows, chosen by VERIF_SEED; thorough: all windows), five placements (root, group, dotted path, re-opened group, DIP(env) chain) and negative "
          "programs (other data type, other dimension, constant, never assigned, undefined node) that must be rejected.",
     note="Unit factors hand-written (SI definitions), converted values compared to 1e-12 relative. Not covered: none "
